@@ -347,7 +347,42 @@ def cluster_worker(part, natoms):
     part.outcome(("cluster", natoms > 4096))
 
 
+def empty_exterior_worker(part, zi):
+    """an isolated molecule: NO exterior atoms at all (shape (0,3)); the weight is interior / (interior + background), i.e. 1 without
+    background and below 1 with it - through the constructor and through from_arrays"""
+    from chmpy.interpolate.density import PromoleculeDensity, StockholderWeight
+
+    zi = np.array(zi)
+    interior = np.array([[0.0, 0.0, 0.1173], [0.0, 0.7572, -0.4692], [0.0, -0.7572, -0.4692]])[: len(zi)]
+    pts = eval_points(interior)
+    ri, _ = interp.promolecule_rho(zi, interior.astype(np.float32).astype(np.float64), pts.astype(np.float32).astype(np.float64))
+    for bg in (0.0, 1e-5, 1e-3, 1e-1):
+        for how in ("from_arrays", "constructor"):
+            part.ev()
+            part.tr()
+            case = {"kind": "empty-exterior", "zi": [int(z) for z in zi]}
+            try:
+                if how == "from_arrays":
+                    s_ = StockholderWeight.from_arrays(zi, interior, np.zeros(0, dtype=int), np.zeros((0, 3)), background=bg)
+                else:
+                    s_ = StockholderWeight(PromoleculeDensity((zi, interior)), PromoleculeDensity((np.zeros(0, dtype=int), np.zeros((0, 3)))), background=bg)
+                w = np.asarray(s_.weights(pts), dtype=np.float64)
+            except Exception as e:
+                part.fail("empty-exterior:raise:%s" % how, "StockholderWeight with no exterior atoms (%s, background %g) raised %r" % (how, bg, e), case)
+                continue
+            ok = ri + bg > 1e-12
+            wref = ri[ok] / (ri[ok] + bg)
+            dw = float(np.abs(w[ok] - wref).max()) if ok.any() else 0.0
+            if dw > 2e-4:
+                part.fail("empty-exterior:weight:%s" % how, "no exterior atoms, background %g (%s): weight deviates by %.3g from interior/(interior+background)" % (bg, how, dw), case)
+            part.outcome(("empty-exterior", how, bg > 0))
+    part.nstates(1)
+
+
 def worker(part, job, seed):
+    if job[0] == "empty-exterior":
+        empty_exterior_worker(part, job[1])
+        return
     if job[0] == "cluster":
         cluster_worker(part, job[1])
         return
@@ -399,6 +434,7 @@ def run(ctx):
         for dists in ((3.0, 13.0), (10.5,), (10.7,), (25.0,), (3.0, 8.0, 10.6, 15.0), (12.0, 12.5, 30.0)):
             far.append(("far", (zi, ze, dists)))
     jobs += far
+    jobs += [("empty-exterior", zi) for zi in ((8, 1, 1), (6,), (92, 17))]
     jobs += [("cluster", n) for n in ((255, 256, 257, 1000, 4095, 4096, 4097, 8193) if not ctx.thorough else (255, 256, 257, 1000, 4095, 4096, 4097, 8193, 16385, 32769, 65537))]
     bs = BATCH_SIZES if ctx.thorough else tuple(n for n in BATCH_SIZES if n <= 70001)
     jobs += [("batch", bs[i::4]) for i in range(4)]
@@ -420,6 +456,8 @@ def replay(ctx, case):
         table_worker(ctx, [case["z"]])
     elif case["kind"] == "config":
         config_worker(ctx, [(0, (tuple(case["sites"]), tuple(case["zs"])))], case["seed"], 1)
+    elif case["kind"] == "empty-exterior":
+        empty_exterior_worker(ctx, tuple(case["zi"]))
     elif case["kind"] == "cluster":
         cluster_worker(ctx, case["natoms"])
     elif case["kind"] == "far":
